@@ -17,6 +17,7 @@ import (
 	"time"
 
 	"gitlab.torproject.org/tpo/anti-censorship/pluggable-transports/goptlib"
+	"pgregory.net/rapid"
 
 	"gitlab.com/yawning/obfs4.git/internal/verifkit/detrand"
 	"gitlab.com/yawning/obfs4.git/internal/verifkit/drive"
@@ -117,15 +118,40 @@ func vfStartPair(br vfBridge, legacy bool, clientIAT int) (*vfPair, error) {
 	}
 	n := wire.New()
 	p := &vfPair{N: n, SF: sf}
+	steerS, steerC := vfSteerServerPad, vfSteerClientPad
+	vfSteerServerPad, vfSteerClientPad = -1, -1
+	if steerS >= 0 {
+		detrand.ForceIntn(steerS)
+	}
 	p.Sv = drive.Start(n, wire.B, func() (net.Conn, error) { return sf.WrapConn(n.Conn(wire.B)) })
 	if err := n.WaitQuiescent(wire.B); err != nil {
 		return p, err
+	}
+	detrand.ClearForced()
+	if steerC >= 0 {
+		detrand.ForceIntn(steerC)
 	}
 	p.Cl = drive.Start(n, wire.A, func() (net.Conn, error) { return cf.Dial("tcp", "192.0.2.1:1", vfDialFn(n.Conn(wire.A)), cargs) })
 	if err := n.WaitQuiescent(wire.A, wire.B); err != nil {
 		return p, err
 	}
+	detrand.ClearForced()
 	return p, nil
+}
+
+// vfSteerServerPad / vfSteerClientPad: when >= 0, the next vfStartPair makes the
+// server / client draw this offset into its padding-length range (0 = minimum
+// padding, range size - 1 = maximum; values beyond wrap around in a correct
+// implementation).  Reset by vfStartPair.
+var vfSteerServerPad, vfSteerClientPad = -1, -1
+
+// vfDrawSteer draws padding steering for both sides (mostly none).
+func vfDrawSteer(rt *rapid.T) bool {
+	opts := []int{-1, -1, -1, -1, -1, -1, 0, refobfs4.ServerMaxPad, refobfs4.ServerMaxPad + 1}
+	vfSteerServerPad = rapid.SampledFrom(opts).Draw(rt, "steerServerPad")
+	optc := []int{-1, -1, -1, -1, -1, -1, 0, refobfs4.ClientMaxPad - refobfs4.ClientMinPad, refobfs4.ClientMaxPad - refobfs4.ClientMinPad + 1}
+	vfSteerClientPad = rapid.SampledFrom(optc).Draw(rt, "steerClientPad")
+	return vfSteerServerPad >= 0 || vfSteerClientPad >= 0
 }
 
 // vfFinishHandshake releases both handshakes whole and waits for quiescence.
